@@ -9,13 +9,13 @@ import Hv.Misc.Hydrex
     Cases whose keys are all clean swamp-name parts (non-empty, no '/') run the PROVEN step function
     `Hv.Hydrex.step`.  A case that uses a hostile key runs `stepX`, an executable extension that adds
     what the real stack does with such keys (it is compared with the implementation, not proved):
-      * the index swamp of a key is named by the part of the key before the first '/'
-        (`name.Load` drops the rest), so "a/b" and "a" share one index swamp;
-      * an empty key makes the whole CatalogSaveMany of the core data fail (the error is only logged)
-        while the index entries of that Save are still written.
+      * the gateway refuses swamp names that do not have exactly three non-empty parts, so the index swamp of a
+        key that is empty or contains '/' does not exist — ONE such name in a CatalogSaveManyToMany request
+        rejects the whole request (Hydrex only logs the error), CatalogDeleteManyFromMany skips it;
+      * an empty key also makes the whole CatalogSaveMany of the core data fail (conversion error).
     Flags: `C27-value-update-skipped`, `C27-stale-keys-kept`, `C27-destroy-leaves-index`,
-    `C27-index-inconsistent`, and for hostile keys `C27-empty-key-blocks-core-save`,
-    `C27-key-separator-collision`. -/
+    `C27-index-inconsistent`, and for hostile keys `C27-empty-key-save-ignored`,
+    `C27-key-with-separator-not-indexed`. -/
 namespace Driver.C27
 open Hv.Hydrex
 
@@ -52,34 +52,36 @@ def parseItems (s : String) : Option (List (String × Val)) :=
 
 /-- executable extension of `Hv.Hydrex.step` for hostile keys (see the header) -/
 def stepX (cfg : Cfg) (keys : List String) (s : St) (i : Idx) (d : Dom) (items : Option (Key → Option Val)) : St :=
-  let n := keys.length
-  let ks := List.range n
-  let idxOf (k : Key) : Key := (keys.idxOf? (normTok (keys.getD k "x"))).getD k
-  let bad (k : Key) : Bool := keys.getD k "?" == "x"
+  let ks := List.range keys.length
+  let empty (k : Key) : Bool := keys.getD k "?" == "x"
+  let hostile (k : Key) : Bool := isHostileTok (keys.getD k "?")
   let old := s.core i d
   match items with
   | none =>   -- destroy
+    -- CatalogDeleteManyFromMany skips an invalid swamp name and goes on with the others
+    let blockedDel := false
     { core := fun i' d' k => if i' = i ∧ d' = d then none else s.core i' d' k,
       index := fun i' j d' =>
-        if i' = i ∧ d' = d ∧ cfg.destroyCleansIndex ∧ ks.any (fun k => idxOf k == j && (old k).isSome) then false
-        else s.index i' j d' }
+        if i' = i ∧ d' = d ∧ cfg.destroyCleansIndex ∧ !blockedDel ∧ (old j).isSome then false else s.index i' j d' }
   | some it =>
     let writes (k : Key) : Bool :=
       match old k, it k with
       | none, some _ => true
       | some v, some w => cfg.updatesExisting && v != w
       | _, _ => false
-    let blocked := ks.any (fun k => writes k && bad k)
     let stale (k : Key) : Bool := (old k).isSome && (it k).isNone && cfg.saveRemovesStale
     let fresh (k : Key) : Bool := (old k).isNone && (it k).isSome
+    let coreBlocked := ks.any (fun k => writes k && empty k)       -- CatalogSaveMany: "key field must be a non-empty string"
+    let addBlocked := ks.any (fun k => fresh k && hostile k)       -- CatalogSaveManyToMany: one invalid swamp name rejects the request
+    let delBlocked := false                                        -- CatalogDeleteManyFromMany skips invalid names one by one
     { core := fun i' d' k =>
         if i' = i ∧ d' = d then
-          (if stale k then none else if writes k && !blocked then it k else old k)
+          (if stale k then none else if writes k && !coreBlocked then it k else old k)
         else s.core i' d' k,
       index := fun i' j d' =>
         if i' = i ∧ d' = d then
-          (if ks.any (fun k => idxOf k == j && fresh k) then true
-           else if ks.any (fun k => idxOf k == j && stale k) then false
+          (if fresh j && !addBlocked then true
+           else if stale j && !delBlocked then false
            else s.index i' j d')
         else s.index i' j d' }
 
@@ -101,8 +103,6 @@ def step (d : DSt) (line : String) : DSt × String :=
       let (keys, kl) := l.foldl (fun (acc : List String × List (Key × Val)) (kv : String × Val) =>
         let (ks, id) := idOf acc.1 kv.1
         (ks, acc.2 ++ [(id, kv.2)])) (d.keys, [])
-      -- normalised names get an id too, so that "a/b" finds the index swamp of "a"
-      let keys := keys.foldl (fun acc t => (idOf acc (normTok t)).1) keys
       let hostile := d.hostile || l.any (fun kv => isHostileTok kv.1)
       let f : Key → Option Val := fun k => kl.lookup k
       let s' := if hostile then stepX d.cfg keys d.s i dm (some f) else Hv.Hydrex.step d.cfg d.s (.save i dm f)
@@ -122,23 +122,21 @@ def step (d : DSt) (line : String) : DSt × String :=
     let want := ks.map (d.spec i dm)
     let fl :=
       if got == want then ""
-      else if d.hostile then "\t#F:C27-empty-key-blocks-core-save"
+      else if d.hostile then (if d.keys.contains "x" then "\t#F:C27-empty-key-save-ignored" else "\t#F:C27-key-with-separator-not-indexed")
       else if got.map Option.isSome == want.map Option.isSome then "\t#F:C27-value-update-skipped"
       else "\t#F:C27-stale-keys-kept"
     ({ d with idxs := idxs, doms := doms }, "core " ++ renderCore d.keys (d.s.core i dm) ++ fl)
   | ["index", it, kt] =>
     let (idxs, i) := idOf d.idxs it
     let (keys, k) := idOf d.keys kt
-    let keys := (idOf keys (normTok kt)).1
-    let j := if d.hostile || isHostileTok kt then (keys.idxOf? (normTok kt)).getD k else k
+    let j := k
     let ds := List.range d.doms.length
     let got := ds.filter fun dm => d.s.index i j dm
     -- Spec: the domains whose last saved items contain exactly this key
     let want := ds.filter fun dm => (d.spec i dm k).isSome
     let fl := if got == want then "" else
       (if d.hostile || isHostileTok kt then
-         (if (List.range keys.length).any (fun k' => k' != k && (keys.idxOf? (normTok (keys.getD k' "x"))) == some j && ds.any (fun dm => (d.spec i dm k').isSome))
-          then "\t#F:C27-key-separator-collision" else "\t#F:C27-empty-key-blocks-core-save")
+         (if d.keys.contains "x" || kt == "x" then "\t#F:C27-empty-key-save-ignored" else "\t#F:C27-key-with-separator-not-indexed")
        else if d.cfg.destroyCleansIndex then "\t#F:C27-index-inconsistent" else "\t#F:C27-destroy-leaves-index")
     let parts := ((got.map fun dm => d.doms.getD dm "?").toArray.qsort (· < ·)).toList
     ({ d with idxs := idxs, keys := keys }, "index " ++ (if parts.isEmpty then "-" else ",".intercalate parts) ++ fl)
